@@ -217,9 +217,11 @@ def _is_pure_builtin(c):
     return isinstance(c.func, ast.Name) and c.func.id in ("len", "int", "str", "min", "max")
 
 
-def _transport_close(ctx, R):
+def _transport_close(ctx, R, only=None):
     pkg = ctx.pkg
     for cq in ("transport.tcp_transport.TcpTransport", "transport.tcp_transport_async.TcpTransportAsync", "transport.usb_transport.UsbTransport"):
+        if only is not None and cq not in only:
+            continue
         cls = pkg.classes.get(cq)
         if cls is None:
             if cq.endswith("UsbTransport"):
